@@ -88,6 +88,10 @@ def order_vote_rule(cx):
 
 
 def run(cx):
+    b = cx.fn('geom2::hull::convex_hull_2d')
+    if b:
+        cx.expect('EXPR', 'convex_hull_2d:delegates', cx.retval(b), '(call *convex_hull2_idx (param points))',
+                  'convex_hull_2d is the hull builder on every path (no small-input shortcut returning the points in input order: three points given clockwise or collinear are not their own counter-clockwise hull)', where=b.file)
     Q = '(call T::into (field coords (param point)))'
     b = cx.fn(f'{KD}::KdTree::within')
     if b:
